@@ -14,7 +14,8 @@
 //     chain of subgrids with DensitySubGridCreator neighbours and output_to_input_direction:
 //       G1 G2 G3  S1 S2 S3  P1 P2 P3  ux uy uz  ax ay az  px py pz  dx dy dz  tau w sigma nu maxhops  k_0 ... (global flat)
 //     output: {"out":o,"end":[..],"tauleft":t,"dep":[.. global flat ..],"hops":[[sub,in,out],...]}
-//   ray_harness tables <out.json>    tables of TravelDirections
+//   ray_harness tables <out.json> [layouts.txt]   tables of TravelDirections; neighbour tables incl. copies of the
+//     layouts  S1 S2 S3 P1 P2 P3 level_0 .. level_{nsub-1}  (one per line)
 #include "DensitySubGrid.hpp"
 #include "DensitySubGridCreator.hpp"
 #include "HomogeneousDensityFunction.hpp"
@@ -179,9 +180,69 @@ static int do_multi(const char *in, const char *outname) {
   return 0;
 }
 
-static int do_tables(const char *outname) {
+// layouts: lines  S1 S2 S3 P1 P2 P3 level_0 ... level_{nsub-1}
+static std::string do_layouts(const char *in) {
+  std::ifstream f(in);
+  std::string line, res = "[";
+  bool firstl = true;
+  while (std::getline(f, line)) {
+    if (line.empty())
+      continue;
+    std::istringstream is(line);
+    long S[3], P[3];
+    is >> S[0] >> S[1] >> S[2] >> P[0] >> P[1] >> P[2];
+    const long nsub = S[0] * S[1] * S[2];
+    std::vector< uint_fast8_t > levels(nsub);
+    std::string lv;
+    for (long i = 0; i < nsub; ++i) {
+      int l;
+      is >> l;
+      levels[i] = l;
+      lv += (i ? "," : "") + std::to_string(l);
+    }
+    const Box<> box(CoordinateVector<>(0.), CoordinateVector<>(1. * S[0], 1. * S[1], 1. * S[2]));
+    DensitySubGridCreator< DensitySubGrid > creator(box, CoordinateVector< int_fast32_t >(2 * S[0], 2 * S[1], 2 * S[2]),
+                                                    CoordinateVector< int_fast32_t >(S[0], S[1], S[2]),
+                                                    CoordinateVector< bool >(P[0], P[1], P[2]));
+    HomogeneousDensityFunction df(1., 8000.);
+    df.initialize();
+    creator.initialize(df);
+    creator.create_copies(levels);
+    const size_t ntot = creator.number_of_actual_subgrids();
+    std::vector< long > orig(ntot, -1);
+    for (long g = 0; g < nsub; ++g) {
+      orig[g] = g;
+      if (levels[g] > 0) {
+        auto it = creator.get_subgrid(g);
+        auto range = it.get_copies();
+        for (auto c = range.first; c != range.second; ++c)
+          orig[c.get_index()] = g;
+      }
+    }
+    if (!firstl)
+      res += ",";
+    firstl = false;
+    res += "{\"n\":[" + std::to_string(S[0]) + "," + std::to_string(S[1]) + "," + std::to_string(S[2]) + "],\"per\":[" +
+           std::to_string(P[0]) + "," + std::to_string(P[1]) + "," + std::to_string(P[2]) + "],\"levels\":[" + lv +
+           "],\"subs\":[";
+    for (size_t i = 0; i < ntot; ++i) {
+      DensitySubGrid &g = *creator.get_subgrid(i);
+      res += std::string(i ? "," : "") + "{\"i\":" + std::to_string(i) + ",\"orig\":" + std::to_string(orig[i]) + ",\"ngb\":[";
+      for (int d = 0; d < TRAVELDIRECTION_NUMBER; ++d) {
+        const uint_fast32_t n = g.get_neighbour(d);
+        res += std::string(d ? "," : "") + (n == NEIGHBOUR_OUTSIDE ? std::string("-1") : std::to_string(n));
+      }
+      res += "]}";
+    }
+    res += "]}";
+  }
+  return res + "]";
+}
+
+static int do_tables(const char *outname, const char *layouts) {
   FILE *out = fopen(outname, "w");
-  fprintf(out, "{\"o2i\":[");
+  fprintf(out, "{\"layouts\":%s,", layouts ? do_layouts(layouts).c_str() : "[]");
+  fprintf(out, "\"o2i\":[");
   for (int i = 0; i < TRAVELDIRECTION_NUMBER; ++i)
     fprintf(out, "%s%d", i ? "," : "", (int)TravelDirections::output_to_input_direction(i));
   fprintf(out, "],\"compat_in\":[");
@@ -209,7 +270,7 @@ int main(int argc, char **argv) {
   if (argc >= 4 && std::string(argv[1]) == "multi")
     return do_multi(argv[2], argv[3]);
   if (argc >= 3 && std::string(argv[1]) == "tables")
-    return do_tables(argv[2]);
+    return do_tables(argv[2], argc >= 4 ? argv[3] : nullptr);
   std::cerr << "usage: see source\n";
   return 2;
 }
